@@ -511,3 +511,5 @@ func c08NewPlugin(args *config.LoadAwareSchedulingArgs, clk clock.Clock) *Plugin
 }
 
 func c08OpKind(name string) string { return strings.SplitN(name, "(", 2)[0] }
+
+func c08Ptr[T any](v T) *T { return &v }
